@@ -81,9 +81,15 @@ fn selfdial_case(variant: u64, in_mesh: bool, stream: u64) -> Value {
         sim.deliver_due();
         sim.run_for(INTERVAL + 5);
     } else {
-        // looped-back datagrams appear to come from: 0 the node's own address, 1 the alias, 2 a third address
-        match variant % 3 {
+        // looped-back datagrams appear to come from: 0 the node's own address, 1 the alias, 2 a third address,
+        // 3 hair-pinning: what is sent to the alias arrives from a second alias and vice versa
+        match variant % 4 {
             0 => {}
+            3 => {
+                sim.alias.insert(addr_of(62), 1);
+                sim.hairpin.insert((1, alias), addr_of(62));
+                sim.hairpin.insert((1, addr_of(62)), alias);
+            }
             1 => {
                 sim.seen_as.insert(1, alias);
             }
@@ -115,7 +121,7 @@ fn selfdial_case(variant: u64, in_mesh: bool, stream: u64) -> Value {
         let jid = sim.nodes[*j].node.verif_node_id();
         sim.nodes[*j].node.verif_peers().iter().any(|p| p.node_id == a_id) && sim.nodes[a].node.verif_peers().iter().any(|p| p.node_id == jid)
     });
-    json!({"op":"selfdial","variant":variant % 3,"in_mesh":in_mesh,"self_peer":selfp,"pending_left":pending_left,"own":own,"learnt":learnt,
+    json!({"op":"selfdial","variant":variant % 4,"in_mesh":in_mesh,"self_peer":selfp,"pending_left":pending_left,"own":own,"learnt":learnt,
            "dials_of_own_alias":dials,"mesh_ok":mesh_ok,"panics":sim.total_panics()})
 }
 
@@ -168,8 +174,11 @@ pub fn run(cfg_path: &str, tier: &str, out_path: &str) -> Value {
         let (nat, dial) = random_graph(n, &mut rng);
         jobs.push(Job::Mesh(n, nat, dial));
     }
-    for v in 0..3 {
+    for v in 0..4 {
         for m in [false, true] {
+            if v == 3 && m {
+                continue;
+            }
             jobs.push(Job::SelfDial(v, m));
         }
     }
